@@ -127,6 +127,8 @@ def parse_cbmc_json(out):
 def build_unit(u, scr, workdir, tier, trace=False, common_replace=()):
     """Compile, instrument and run one unit. Returns UnitResult."""
     common_replace = common_replace or u.get('_common', ())
+    if u.get('no_common'):
+        common_replace = ()
     r = UnitResult(u)
     name = u['name']
     scr_root = os.path.dirname(workdir)   # scratch root (plain + annotated trees)
